@@ -121,7 +121,7 @@ func (w *worker) begin(i int) {
 	binary.LittleEndian.PutUint64(b[:], uint64(i)+1)
 	w.prog.WriteAt(b[:], 0)
 	w.sinceCkpt++
-	if w.sinceCkpt >= 256 {
+	if w.sinceCkpt >= 256 || (w.sinceCkpt >= 8 && os.Getenv("C28_TIMING") != "") {
 		w.checkpoint()
 	}
 }
@@ -162,9 +162,18 @@ func (w *worker) checkpoint() {
 	w.emit(resLine{T: "c", C: w.counters})
 	w.counters = map[string]int64{}
 }
+// recycle ends this worker process after case i completed; the orchestrator continues with a fresh process.
+func (w *worker) recycle(i int) {
+	w.checkpoint()
+	w.emit(resLine{T: "recycle", I: i})
+	stopProfile()
+	os.Exit(9)
+}
+
 func (w *worker) end() {
 	w.checkpoint()
 	w.emit(resLine{T: "end"})
+	stopProfile()
 	os.Exit(0)
 }
 
@@ -341,6 +350,8 @@ type famResult struct {
 	evaluated int64
 	crashes   int
 	stalls    int
+	recycled  int
+	guardOOM  int
 }
 
 const (
@@ -476,6 +487,13 @@ func runFamily(r *ev.Run, fam string, ncases, nshard int, describe func(i int) a
 				if ro.exitCode == 0 && !ro.stalled {
 					return // finished; "end" line checked while merging
 				}
+				if ro.exitCode == 9 && !ro.stalled {
+					start = int(readProg(fam, s, "")) + nshard
+					mu.Lock()
+					fr.recycled++
+					mu.Unlock()
+					continue
+				}
 				if strings.Contains(ro.out, "HARNESS-ERROR") {
 					ev.Harness("worker %s/%d: %s", fam, s, tailStr(ro.out, 3000))
 				}
@@ -496,8 +514,18 @@ func runFamily(r *ev.Run, fam string, ncases, nshard int, describe func(i int) a
 						r.Cap(fmt.Sprintf("%s case %d stalled once but completed when re-run alone (not reported)", fam, at))
 					}
 					mu.Unlock()
+				} else if size, oom := oomBlock(ro.out); oom && size < 1<<40 {
+					// died of the harness's own address-space guard on an allocation a large machine could satisfy: not judged
+					mu.Lock()
+					fr.guardOOM++
+					r.Distinct("guard_oom_cases", fmt.Sprintf("%s:%d", fam, at))
+					mu.Unlock()
 				} else {
 					sig, what := classifyCrash(ro.out, ro.exitCode, ro.sig)
+					if oom {
+						sig = strings.Replace(sig, "process-fatal@", "process-fatal(out-of-memory,block>=1TiB)@", 1)
+						what += fmt.Sprintf(" (single allocation of %d bytes)", size)
+					}
 					mu.Lock()
 					fr.crashes++
 					fr.viols = append(fr.viols, pviol{fam, at, sig, what + "\n--- crash output (head) ---\n" + headStr(crashText(ro.out), 2500), describe(at)})
@@ -543,6 +571,7 @@ func runFamily(r *ev.Run, fam string, ncases, nshard int, describe func(i int) a
 				}
 			case "s":
 				r.Sample(l.S)
+			case "recycle":
 			case "cap":
 				r.Cap(l.What)
 			case "end":
@@ -562,6 +591,29 @@ func runFamily(r *ev.Run, fam string, ncases, nshard int, describe func(i int) a
 	return fr
 }
 
+var reAllocLarge = regexp.MustCompile(`allocLarge\(0x[0-9a-f]+\??, 0x([0-9a-f]+)\??`)
+var reCannotAlloc = regexp.MustCompile(`cannot allocate ([0-9]+)-byte block`)
+
+// oomBlock reports whether the worker died of memory exhaustion and, if known, the size of the block it asked for.
+func oomBlock(out string) (int64, bool) {
+	if !strings.Contains(out, "fatal error: out of memory") && !strings.Contains(out, "runtime: out of memory") &&
+		!strings.Contains(out, "cannot allocate memory") && !strings.Contains(out, "fatal error: runtime: cannot allocate") {
+		return 0, false
+	}
+	if m := reCannotAlloc.FindStringSubmatch(out); m != nil {
+		n, _ := strconv.ParseInt(m[1], 10, 64)
+		return n, true
+	}
+	if m := reAllocLarge.FindStringSubmatch(out); m != nil {
+		n, _ := strconv.ParseUint(m[1], 16, 64)
+		if n > 1<<62 {
+			n = 1 << 62
+		}
+		return int64(n), true
+	}
+	return 0, true
+}
+
 func crashText(out string) string {
 	for _, m := range []string{"fatal error: ", "panic: "} {
 		if i := strings.Index(out, m); i >= 0 {
@@ -575,7 +627,7 @@ func crashText(out string) string {
 // with main.runCase… on its stack).
 func blockedSite(out string) string {
 	for _, g := range strings.Split(out, "\n\ngoroutine ") {
-		if strings.Contains(g, "main.(*worker)") || strings.Contains(g, "main.run") {
+		if strings.Contains(g, "main.(*cfgDriver).run") || strings.Contains(g, "main.(*reqDriver).run") {
 			return site("goroutine " + g)
 		}
 	}
